@@ -5,6 +5,11 @@ HERE = os.path.dirname(os.path.dirname(os.path.abspath(__file__)))
 
 # id -> (technique, level text, level note, design ref)
 CHECKS = {
+ "C07": (
+  "hypothesis-generated datasets x all four calling programs x generated --report sets; strict header-driven text parser + pysam parse + semantic recomputation + differential against in-process internal values",
+  "Exploration: every record printed by assemble, call, call-exact and call-pedigree (call* fed with assemble output) on generated datasets (loci without SNVs / reads, mixed ploidy, inbreeding files, reference-masking thresholds, pedigrees) under generated report sets: column count, declared keys, Number=1/A/R/G cardinalities for the record's allele count and each sample's ploidy, Integer/Float lexical form, GT shape/sortedness/range, no python literals; whole output readable by pysam; REF vs FASTA, ALT vs input SNVs and SNVPOS, AC/AN/UAN/NS from GTs, INFO DP/RCOUNT/ACP/AFP/SNVDP from sample columns; every printed float within 0.0005 of the internal value with <=3 decimals.",
+  "INFO sums use printed sample values with the accumulated rounding band; internal values are re-derived in-process with the same seed; datasets <= 3 loci x 3 samples.",
+  "DESIGN.md §4 C07"),
  "C06": (
   "hypothesis-generated synthetic BAM/VCF/FASTA/BED datasets known by construction + differential against an independent CIGAR-walking pileup; fault injection of reference disagreement",
   "Exploration: generated datasets (CIGARs with indels/clips/skips, flags, MAPQ on/around the threshold, overlapping mates, several read groups and samples per file, SM/ID keys, all keep-flag combinations): every (file, locus, sample) read matrix equals the reference pileup row-by-row by read name; the encoded matrix, RCOUNT, SNVDP, DP, RCALLS and the de-duplicated read distributions are recomputed; the FORMAT fields printed by assemble are compared; datasets whose FASTA or alignment reference disagrees with the SNV file at a covered SNV must end in an error without a record for that locus.",
